@@ -188,28 +188,40 @@ class Program:
                     raise AnalysisError(f"{rel}: does not parse: {e}")
 
     def inlined_views(self):
-        """views of the same tree with extracted helpers folded back into their callers (sa/inline.py): first every eligible
-        helper, then one view per helper name (a rule may know some helpers by name and only stumble over a new one)"""
+        """semantics-preserving re-writings of the same tree (sa/inline.py), used by report.run_rules to discharge obligations a
+        rule cannot discharge on the text as written: single-assignment temporaries replaced by their definitions; extracted
+        helpers folded back into their callers (all of them, then one view per *new* helper name); both"""
         if self.transform is not None:
             return
-        from .inline import inline_module, callee_of_log
+        from .inline import inline_module, inline_temporaries, inline_both, callee_of_log, ESTABLISHED_HELPERS
         import functools
         if self._inlined is None:
-            P2 = Program(self.root, transform=inline_module)
-            names = sorted({callee_of_log(l) for m in P2.modules.values() for l in m.transform_log})
-            self._inlined = {"*": P2 if names else None, "names": names}
-        if self._inlined["*"] is None:
+            self._inlined = {}
+        C = self._inlined
+
+        def view(key, tr):
+            if key not in C:
+                P2 = Program(self.root, transform=tr)
+                C[key] = P2 if any(m.transform_log for m in P2.modules.values()) else None
+            return C[key]
+
+        v = view("temporaries", inline_temporaries)
+        if v is not None:
+            yield "temporaries", v
+        allh = view("all helpers", inline_module)
+        if allh is None:
             return
-        yield "all helpers", self._inlined["*"]
-        if len(self._inlined["names"]) < 2:
-            return
-        from .inline import ESTABLISHED_HELPERS
-        for nm in self._inlined["names"]:
+        yield "all helpers", allh
+        v = view("all helpers + temporaries", inline_both)
+        if v is not None:
+            yield "all helpers + temporaries", v
+        names = sorted({callee_of_log(l) for m in allh.modules.values() for l in m.transform_log if ": inlined " in l})
+        for nm in names:
             if nm in ESTABLISHED_HELPERS:
-                continue  # the rules are calibrated on these helpers as written; a view that folds only one of them decides nothing new
-            if nm not in self._inlined:
-                self._inlined[nm] = Program(self.root, transform=functools.partial(inline_module, only={nm}))
-            yield nm, self._inlined[nm]
+                continue  # the rules are calibrated on these helpers as written
+            v = view("helper " + nm, functools.partial(inline_both, only={nm}))
+            if v is not None:
+                yield "helper " + nm, v
 
     def digest(self):
         h = hashlib.sha256()
